@@ -167,3 +167,32 @@ pub fn c19_flatstack_columns_zero() {
     cover!(true, "end reached");
     sym::forget((fs, twin));
 }
+
+// @h prop=C19 tier=quick kind=proof inst="FlatStack<ConsecutiveIndexPairs<OwnedRegion<u8>>, IndexOptimized>: reserve and extend on a populated stack" bounds="2 copies, reserve(4), extend of 2 more items (2, 1, 0, 3 symbolic bytes)" desc="pre-sizing and extending a stack whose indices are a pure stride still spends zero heap bytes (used and capacity) on its own indices"
+#[cfg_attr(kani, kani::proof, kani::unwind(6))]
+pub fn c19_flatstack_reserve_extend_zero() {
+    let items = [Bytes::<3>::any_len(2), Bytes::<3>::any_len(1), Bytes::<3>::any_len(0), Bytes::<3>::any_len(3)];
+    let mut fs = FlatStack::<Cip, IndexOptimized>::default();
+    let mut twin = Cip::default();
+    fs.copy(items[0].as_slice());
+    fs.copy(items[1].as_slice());
+    fs.reserve(4);
+    fs.extend([items[2].as_slice(), items[3].as_slice()]);
+    for b in items.iter() {
+        let _ = twin.push(b.as_slice());
+    }
+    assert!(fs.len() == 4 && fs.get(3).len() == 3 && fs.get(3)[2] == items[3].buf[2], "C19: stack reads differently after reserve/extend");
+    let mut region_pairs = 0usize;
+    twin.heap_size(|_, _| region_pairs += 1);
+    let mut k = 0usize;
+    let mut own = 0usize;
+    fs.heap_size(|u, c| {
+        if k >= region_pairs {
+            own += u + c;
+        }
+        k += 1;
+    });
+    assert!(k > region_pairs && own == 0, "C19: reserve/extend made a dense-index FlatStack spend heap on its own indices");
+    cover!(true, "end reached");
+    sym::forget((fs, twin));
+}
